@@ -160,7 +160,7 @@ def scenarios(ctx):
         init = CONNECTED_P + ((('setwin', 0, win),) if win != 1 else ())
         out.append(Std('%s-w%d' % (profile, win), profile=profile, init=init, connects=[(False, 0, 4)],
                        reconnects=[(False, 0, 4), (True, 0, 4)], pub_qos=(1, 2) if q else (0, 1, 2),
-                       budgets=dict(pub=3, ack=3 if q else 4, tick=1, lose=2 if q else 3, rebuild=2 if q else 3,
+                       budgets=dict(pub=2 if q else 3, ack=2 if q else 4, tick=1, lose=2 if q else 3, rebuild=2 if q else 3,
                                     connect=2 if q else 3, connack=2 if q else 3, dack=0 if q else 1)))
     out.append(Std('pubsub-async', profile='pubsub', mode='async', init=CONNECTED_P, connects=[(False, 0, 4)],
                    reconnects=[(False, 0, 4), (True, 0, 4)], pub_qos=(1, 2),
